@@ -271,7 +271,7 @@ func (p *Parser) parseBuffer(buf []byte, last bool) (err error) {
 			p.line++
 			p.noff = off
 			for i, b = range buf[off+1:] {
-				if spaceMap[b] != skipChar {
+				if p.mode[b] != skipChar {
 					break
 				}
 			}
@@ -280,13 +280,13 @@ func (p *Parser) parseBuffer(buf []byte, last bool) (err error) {
 		case cskipNewline:
 			p.line++
 			p.noff = off
+			p.mode = ccommentMap
 			for i, b = range buf[off+1:] {
-				if spaceMap[b] != skipChar {
+				if p.mode[b] != skipChar {
 					break
 				}
 			}
 			off += i
-			p.mode = ccommentMap
 			continue
 
 		case tokenStart:
@@ -534,7 +534,7 @@ func (p *Parser) parseBuffer(buf []byte, last bool) (err error) {
 			p.line++
 			p.noff = off
 			for i, b = range buf[off+1:] {
-				if spaceMap[b] != skipChar {
+				if p.mode[b] != skipChar {
 					break
 				}
 			}
@@ -569,7 +569,7 @@ func (p *Parser) parseBuffer(buf []byte, last bool) (err error) {
 			p.noff = off
 			p.mode = valueMap
 			for i, b = range buf[off+1:] {
-				if spaceMap[b] != skipChar {
+				if p.mode[b] != skipChar {
 					break
 				}
 			}
